@@ -230,4 +230,7 @@ def run(db, chk):
     chk.absorb(db, "C04", {"C04-S1"}, "C03-R5", "single-direction routing leaves exactly one receiver with "
                "partition weight one at every update (shared with C04-S1), so that accumulation conserves "
                "the source", min_instances=100)
+    chk.absorb(db, "C05", {"C05-M1", "C05-M2", "C05-M3"}, "C03-R6", "multiple-direction routing leaves, at every "
+               "update, a receiver count and partition weights normalised by one complete, finite, non-zero "
+               "sum (shared with C05-M1..M3), so that accumulation conserves the source", min_instances=100)
     chk.count_scenarios(n_sc, True)
